@@ -38,7 +38,9 @@ objs=[f('-')*g('+')*jump(u)*jump(v)*dS + g*u*v*dx]'''),
 def slot_values(v, tier, seed):
     """which slot of w each value is read from: the kernels of the cases above against the oracle, which lays w out as
     the contract says (coefficient k at offset_k, on interior facets the '+' block of the whole element, then the '-' block)"""
-    res = valprops.run_oracle(EXTRA, seed, entity_mode="random")
+    more = [c for c in corpus.PINNED if c["id"] in ("real_coefficient_interior_facet", "constants_interior_facet", "form_constants_coefficients_9_10",
+                                                    "prism_ds_coefficient", "real_space_tri", "exo_real_space")]
+    res = valprops.run_oracle(EXTRA + more, seed, entity_mode="random")
     st = valprops.account(v, res, "c05", what="kernel reads a coefficient / constant value from another slot than the packing contract says")
     return {"slot_layout_vs_oracle": st}
 
